@@ -336,7 +336,11 @@ def rewrite_quals(text, log, where):
             log.append(("R1", where, "const fn->fn"))
         i += 1
     out.append(text[last:])
-    return "".join(out)
+    res = "".join(out)
+    if not re.match(r"\s*pub\b", res):
+        res = "pub " + res.lstrip()
+        log.append(("R1", where, "made pub"))
+    return res
 
 
 def pub_fields(text, log, where):
@@ -547,6 +551,50 @@ def demut_params(text, log, where):
     return text
 
 
+def desugar_map_collect(text, log, where):
+    """R17: `RECV.iter().map(|PAT| BODY).collect()` (RECV a field path) is rewritten into the loop it
+    abbreviates: `{ let mut verif_out = Vec::new(); for PAT in RECV.iter() { verif_out.push(BODY); } verif_out }`.
+    Nothing is dropped; the equivalence is the std definition of Iterator::map + collect::<Vec<_>>()."""
+    while True:
+        toks = lex(text)
+        hit = None
+        for i in range(1, len(toks) - 8):
+            if toks[i].text == "iter" and toks[i - 1].text == "." and toks[i + 1].text == "(" and toks[i + 2].text == ")" \
+                    and toks[i + 3].text == "." and toks[i + 4].text == "map" and toks[i + 5].text == "(" and toks[i + 6].text == "|":
+                mclose = match_close(toks, i + 5)
+                # closure params
+                pe = i + 7
+                while toks[pe].text != "|":
+                    pe += 1
+                if mclose + 4 >= len(toks) or toks[mclose + 1].text != "." or toks[mclose + 2].text != "collect":
+                    continue
+                c = mclose + 3
+                if toks[c].text == "::":
+                    # turbofish: skip to '('
+                    while toks[c].text != "(":
+                        c += 1
+                if toks[c].text != "(" or toks[c + 1].text != ")":
+                    continue
+                # receiver: walk back over ident / '.' tokens
+                r = i - 1
+                while r - 1 >= 0 and (toks[r - 1].kind == "id" or toks[r - 1].text == "."):
+                    r -= 1
+                if toks[r].text == ".":
+                    r += 1
+                hit = (r, i, pe, mclose, c + 1)
+                break
+        if hit is None:
+            return text
+        r, i, pe, mclose, end = hit
+        recv = text[toks[r].start:toks[i - 1].start].strip()
+        recv = re.sub(r"\s+", "", recv)
+        pat = text[toks[i + 6].end:toks[pe].start].strip()
+        body = text[toks[pe].end:toks[mclose].start].strip()
+        repl = "{ let mut verif_out = Vec::new(); for %s in %s.iter() { verif_out.push(%s); } verif_out }" % (pat, recv, body)
+        text = text[:toks[r].start] + repl + text[toks[end].end:]
+        log.append(("R17", where, "iter().map(..).collect() over %s desugared into a loop" % recv))
+
+
 def annotate_closures(u, fnpath, text, log):
     """R13: give a closure an explicit Verus header (parameter types, requires/ensures); the body is
     kept verbatim (wrapped in a block when it is a bare expression)."""
@@ -605,6 +653,8 @@ def process_fn(u, fnpath, text, log, origin, canary=None):
     text = rewrite_macros(text, log, fnpath, settings)
     text = rewrite_be_bytes(text, log, fnpath)
     text = rewrite_splice(text, log, fnpath)
+    if settings.get("mapcollect") == "loop":
+        text = desugar_map_collect(text, log, fnpath)
     text = apply_substs(u, fnpath, text, log)
     text = name_wildcard_closure_params(text, log, fnpath)
     # hints first: every anchor is resolved on the text as extracted (before any hint is
